@@ -6,6 +6,7 @@ def main(tier, replay=None):
     if replay:
         return vk_replay("C12", replay)
     res = Result("C12", tier, "fault_enumeration")
+    nconf = vk_conformance(tier)   # the model is compared with the real kernel before anything is concluded from it
     q = tier == "quick"
     fams = [
         dict(scn="local", name="maildir-crash-and-faults", opts=["mode=maildir"], bounds="0,1,1,0", total=1 if q else 2),
@@ -26,4 +27,5 @@ def main(tier, replay=None):
                 "with one injected write failure")
     res.assumptions = ["virtual kernel (appendix A)", "mbox is documented as not crash-proof: machine crashes are not judged for mbox", "a failing flock() is outside the property (delivery proceeds unlocked, as documented 'if possible')"]
     res.require_nonzero("evaluations", "maildir_files_checked", "machine_crashes", "process_kills", "deliveries_ok", "deliveries_deferred")
+    res.notes.append("virtual kernel vs Linux: %d operation sequences compared before this run, all agree (bin/conformance)" % nconf)
     return res.finish()
